@@ -3,4 +3,4 @@ CONSTANTS Nodes = {"n1", "n2"}  Cmds = {"A"}  MaxRepl = 1  T = 1  MaxNow = 2  Ma
           DelFaults = TRUE  CodeMode = "code"  Weak = "none"  Serial = FALSE  Gen = FALSE  MaxLen = 0
 SPECIFICATION FairSpec
 INVARIANTS TypeOK
-PROPERTIES Live_C08_RolledBack_T
+PROPERTIES Live_C08_RolledBack_T Live_C08_FailedEnds_T
